@@ -342,6 +342,9 @@ def run(tier, seed, intensify=False):
     parts += core.pmap_chunks(_chunk, seed, 1500 * k, (tier, "bad"))
     parts += core.pmap_chunks(_chunk, seed, 2000 * k, (tier, "json"))
     parts += core.pmap_chunks(_cli_chunk, seed, 150 * k, (tier, "cli"))
+    ns = core.merge_all(core.pmap_chunks(cluster.run_ns_cases, seed, 600 * k, (tier, "ns")))
+    ns.failures = [f for f in ns.failures if f["prop"] == "C02"]
+    parts.append(ns)
     st = core.merge_all(parts)
     return st
 
